@@ -17,3 +17,10 @@ func constantInt64(v constant.Value) (int64, bool) {
 	}
 	return constant.Int64Val(v)
 }
+
+func constantString(v constant.Value) string {
+	if v.Kind() == constant.String {
+		return constant.StringVal(v)
+	}
+	return ""
+}
